@@ -196,7 +196,7 @@ pub const PROPS: &[PropSpec] = &[
         id: "C15",
         engine: "e5",
         mix: &[],
-        classes: &["output/", "ctx/leak:handler-output", "dispatch/missed-trigger", "service/panic"],
+        classes: &["output/", "ctx/leak:handler-output", "dispatch/missed-trigger", "cas/missing-when-visible", "service/panic"],
         nontrivial: &[&["output:checked"]],
         must_reach: &["handler:registered", "output:checked", "handler:closure-error", "lifecycle:error-reported"],
         quick_runs: 4000,
